@@ -12,8 +12,11 @@
    (correspondence) and with the verified forecaster (the property); every mounting path is mounted and
    the extended history re-read from the tree; complete trees go through the verified derivation checker
    (drv_ir, E2);
-4. slicing: real `slice_parties` vs the model `sliceG` (rule by rule), forecasting on the sliced grammar,
-   and "visible part of a prefix is a prefix of the sliced spec" with the verified matcher;
+4. slicing: real `slice_parties` vs the model `sliceG` (rule by rule, ids included; on the whole grammar and on
+   its message level, which is what `C19_slice_commutes` speaks about - its hypothesis `sliceCert` is evaluated
+   by the driver), forecasting on the real sliced grammar, and "the visible part of a prefix / interaction is
+   a prefix / interaction of the sliced spec" with the verified forecaster (an independent observation of what
+   the theorem states);
 5. fixed probes: computed repetitions at message level, the open-repetition cap, the empty history.
 
 Attribution of what predict() merely relays from the parser (so that parser defects - C05/C06 domain - do not
@@ -23,9 +26,9 @@ count as forecasting defects, and forecasting defects are not hidden behind them
   * "complete not reported" / "no option at all" is attributed to the parser only when the real IterativeParser,
     asked directly with the same reduced grammar and the same word of message types, rejects the history
     (COMPLETE mode) / yields no partial tree (INCOMPLETE mode).
-Open findings proposed by this builder are read from proposed_findings/C19.json (same semantics as
-known_findings.json); the model of the code has the variants before/after the repairs of F36 and F41, the
-implementation must agree with one of them.
+Open findings proposed by this builder are read from proposed_findings/C19.json when that file exists (same
+semantics as known_findings.json).  The model follows the code as repaired by ebdb490d / 8757f904 / fc0f6663
+(forecaster), ed4e9a62 / e74d4443 (slice_parties) and b48dd899 (`{n,}` parsed without an upper bound).
 """
 from __future__ import annotations
 
@@ -57,7 +60,7 @@ TRUSTED = [
     "check rankOk",
 ]
 
-SIG_VISITOR = "C19/repetition-left-with-incomplete-iteration"
+SIG_VISITOR = "C19/repetition-left-with-incomplete-iteration"      # F36, fixed by ebdb490d: kept for the record
 SIG_EMPTY = "C19/empty-history-never-complete"
 SIG_COMPUTED = "C19/computed-repetition-crash"
 SIG_MERGE = "C19/same-type-recipients-merged"
@@ -209,8 +212,7 @@ def explore(grammar, cases: list[dict], max_trees: int = 2, check_complete_trees
         h = tuple(tm(j) for j in case["h"])
         model_next = mset(case["nexts"])
         model_code = mset(case["code"])
-        model_fixed = mset(case["code_fixed"])
-        model_nocap = mset(case["code_fixed_nocap"])
+        model_nocap = mset(case["code_nocap"])
         ts = trees.get(h, [])
         if not ts:
             out["unbuilt"] += 1      # a missing option upstream was already reported there
@@ -261,8 +263,7 @@ def explore(grammar, cases: list[dict], max_trees: int = 2, check_complete_trees
                 out["predicts_type_ambiguous"] = out.get("predicts_type_ambiguous", 0) + 1
             real = sorted(opts.keys(), key=lambda x: (x[0], x[1] or "", x[2]))
             rec = {"h": [jm(m) for m in h], "real": [jm(m) for m in real], "nexts": [jm(m) for m in model_next],
-                   "code": [jm(m) for m in model_code], "code_fixed": [jm(m) for m in model_fixed],
-                   "code_fixed_nocap": [jm(m) for m in model_nocap],
+                   "code": [jm(m) for m in model_code], "code_nocap": [jm(m) for m in model_nocap],
                    "real_complete": real_complete, "complete": case["complete"],
                    "code_complete": case["code_complete"], "positions": case["positions"],
                    "type_ambiguous": amb,
@@ -442,20 +443,21 @@ def run_grammar(job: dict) -> dict:
             sres: dict = {"keep": keep, "ignore_receivers": ign}
             sliced = pr.real_slice(job["spec"], keep, ign)
             sgj, _ = grammar_to_json(sliced)
-            mjs = driver_ask("drv_proto", [{"op": "slice", "grammar": gj, "keep": keep, "ignore_receivers": ign,
-                                            "by_eq": b} for b in (True, False)])
-            mj, mj_intended = mjs[0]["grammar"], mjs[1]["grammar"]
-            # the model of slice_parties has two variants (removal by `==` as the code does today / by position
-            # as intended, F41); the real result must be one of them
-            sres["rules_equal"] = pr.canon_rules(sgj) in (pr.canon_rules(mj), pr.canon_rules(mj_intended))
+            mj = driver_ask("drv_proto", [{"op": "slice", "grammar": gj, "start": "<start>", "keep": keep,
+                                           "ignore_receivers": ign, "real": sgj}])[0]
+            # real slice_parties == model sliceG, rule by rule (node ids included), on the whole grammar ...
+            sres["rules_equal"] = pr.canon_rules(sgj) == pr.canon_rules(mj["grammar"])
             if not sres["rules_equal"]:
-                sres["real_rules"] = pr.canon_rules(sgj)
-                sres["model_rules"] = pr.canon_rules(mj)
-            # the child that was visited is the child that is removed
-            sres["removes_visited_child"] = pr.canon_rules(sgj) == pr.canon_rules(mj_intended)
-            if not sres["removes_visited_child"]:
-                a, b = pr.canon_rules(sgj), pr.canon_rules(mj_intended)
-                sres["wrong_removal"] = [[x, y] for x, y in zip(a, b) if x != y][:2]
+                a, b = pr.canon_rules(sgj), pr.canon_rules(mj["grammar"])
+                sres["real_rules"] = [x for x in a if x not in b][:3]
+                sres["model_rules"] = [x for x in b if x not in a][:3]
+            # ... and on the message level (the grammar the forecaster sees; the grammar of C19_slice_commutes)
+            sres["msglevel_equal"] = pr.canon_rules(mj["real_msglevel"]) == pr.canon_rules(mj["msglevel_sliced"])
+            if not sres["msglevel_equal"]:
+                a, b = pr.canon_rules(mj["real_msglevel"]), pr.canon_rules(mj["msglevel_sliced"])
+                sres["real_rules"] = [x for x in a if x not in b][:3]
+                sres["model_rules"] = [x for x in b if x not in a][:3]
+            sres["slice_cert"] = mj["cert"]
             has_start = any(r[0] == "<start>" for r in sgj["rules"])
             sres["start_kept"] = has_start
             if has_start:
@@ -662,8 +664,7 @@ def classify(rec: dict, nullable_head: bool = False) -> tuple[Optional[str], Opt
 
     `real` is compared with the verified forecaster `nexts` (the property) and with the model of the code
     `code` (correspondence).  A difference real/nexts that the model of the code reproduces is attributed to
-    the modelled cause: the visitor's early `return True` (code_fixed == nexts), the repetition cap
-    (code_fixed_nocap == nexts).  Two causes sit outside the Lean model of the code and are recognised here:
+    the modelled cause: the repetition cap (code_nocap == nexts).  Two causes sit outside the Lean model of the code and are recognised here:
     options that differ in the recipient only are merged by `ForecastingNonTerminals` (keyed by symbol), and
     the type-level prefix parse does not return every derivation of a type-ambiguous history."""
     if rec.get("kind") == "parser-unbounded":
@@ -680,8 +681,8 @@ def classify(rec: dict, nullable_head: bool = False) -> tuple[Optional[str], Opt
         return SIG_MOUNT, f"mounting {rec['mount']} after {rec['h']}: {rec.get('error') or rec.get('got')}", False
     if rec.get("kind") in ("complete-tree-invalid", "complete-tree-history"):
         return SIG_COMPLETE, f"complete tree for {rec['h']} rejected ({rec['kind']}): {rec.get('bad', rec.get('got'))}", False
-    real, nx, code, fixed = rec["real"], rec["nexts"], rec["code"], rec["code_fixed"]
-    nocap = rec.get("code_fixed_nocap", fixed)
+    real, nx, code = rec["real"], rec["nexts"], rec["code"]
+    nocap = rec.get("code_nocap", code)
 
     def by_sender_type(ms):
         return sorted({(m[0], m[2]) for m in ms})
@@ -692,10 +693,8 @@ def classify(rec: dict, nullable_head: bool = False) -> tuple[Optional[str], Opt
     # right derivation (the parser returns one tree per ambiguity) or walks a tree stitched together from two
     # derivations (an unfinished node force-completed next to a sibling predicted by another derivation)
     lost = real != code and not merged and rec.get("type_ambiguous", False)
-    # the model of the code has two variants (`fixed`: visitRepetitionType as it is / with the repair of F36); the
-    # implementation must agree with one of them - so the check stays meaningful before and after the repair lands
-    corr = (real != code and real != fixed and not merged and not lost) or \
-        (rec["real_complete"] not in (rec["code_complete"], rec["complete"]) and not rec.get("type_ambiguous", False))
+    corr = (real != code and not merged and not lost) or \
+        (rec["real_complete"] != rec["code_complete"] and not rec.get("type_ambiguous", False))
     sig = what = None
     if real != nx:
         extra = [m for m in real if m not in nx]
@@ -707,8 +706,6 @@ def classify(rec: dict, nullable_head: bool = False) -> tuple[Optional[str], Opt
             # NO partial tree for this valid prefix: a parser completeness defect (C05 domain), not a forecasting one
             sig, corr = SIG_PARSER_PREFIX, False
             what += " - the real IterativeParser, asked directly in ParsingMode.INCOMPLETE, yields no partial tree"
-        elif extra and all(m in code for m in extra) and not any(m in fixed for m in extra) and fixed == nx:
-            sig = SIG_VISITOR
         elif lost:
             sig = SIG_AMBIG
         elif extra:
@@ -765,11 +762,9 @@ def replay(path: str) -> int:
         for e in (res.get("explore") or {}).get("errors", []):
             bad.append("predict raised " + e["error"] + " after " + json.dumps(e["h"]))
         for s in res.get("slices", []):
-            if not s.get("rules_equal", True):
-                bad.append(f"slice_parties(keep={s['keep']}) differs from the model")
-            if not s.get("removes_visited_child", True):
-                bad.append(f"slice_parties(keep={s['keep']}) removed another occurrence than the one visited: "
-                           + json.dumps(s["wrong_removal"][:1]))
+            if not s.get("rules_equal", True) or not s.get("msglevel_equal", True):
+                bad.append(f"slice_parties(keep={s['keep']}) differs from the model: real {s.get('real_rules')} "
+                           f"model {s.get('model_rules')}")
             for rec in (s.get("explore") or {}).get("mismatch", []):
                 sig, what, corr = classify(rec, nh)
                 if sig and sig != "wallclock":
@@ -795,6 +790,7 @@ def main(tier: str) -> int:
     workers = min(16, os.cpu_count() or 4)
     budget = 150 if tier == "quick" else 1300
     corr_failures: list = []
+    slice_corr: list = []
     results: list[dict] = []
     reported: set = set()
 
@@ -907,17 +903,17 @@ def main(tier: str) -> int:
                 report_once(sig, what, dict(base_replay, history=rec.get("h"), record=rec))
         for s in r["slices"]:
             run.count("slices")
-            if not s["rules_equal"]:
+            if not s["rules_equal"] or not s["msglevel_equal"]:
                 run.count("slice_rules_differ")
+                slice_corr.append({"spec": spec_head, "keep": s["keep"], "ignore_receivers": s["ignore_receivers"],
+                                   "real": s.get("real_rules"), "model": s.get("model_rules")})
                 report_once(SIG_SLICE, f"slice_parties(keep={s['keep']}, ignore_receivers={s['ignore_receivers']}) differs "
-                           f"from the model: real {s['real_rules']} model {s['model_rules']}",
-                           dict(base_replay, kind="slice", slices=[[s["keep"], s["ignore_receivers"]]]), no_input=False)
-            if not s.get("removes_visited_child", True):
-                run.count("violations:" + SIG_SLICE_EQ)
-                report_once(SIG_SLICE_EQ,
-                           f"slice_parties(keep={s['keep']}, ignore_receivers={s['ignore_receivers']}) removed a different "
-                           f"occurrence than the invisible one it visited (real vs intended rule): {s['wrong_removal'][:1]}",
-                           dict(base_replay, kind="slice", slices=[[s["keep"], s["ignore_receivers"]]]))
+                           f"from the model sliceG ({'whole grammar' if not s['rules_equal'] else 'message level'}): "
+                           f"real {s.get('real_rules')} model {s.get('model_rules')}",
+                           dict(base_replay, kind="slice", slices=[[s["keep"], s["ignore_receivers"]]]),
+                           no_input=True)     # correspondence; a property failure on it is reported by the projection check
+            run.count("slices_within_C19_slice_commutes(sliceCert)" if s.get("slice_cert") else
+                      "slices_outside_C19_slice_commutes(sliceCert fails)")
             if not s.get("start_kept"):
                 run.count("slice_deleted_start")
                 continue
@@ -955,6 +951,7 @@ def main(tier: str) -> int:
 
     run.coverage["traces_validated_against_impl"] = run.counters.get("predict_calls", 0) + run.counters.get("sliced_predict_calls", 0)
     run.coverage["correspondence_disagreements"] = len(corr_failures)
+    run.coverage["slice_correspondence_disagreements"] = len(slice_corr)
     run.coverage["disagreement_samples"] = corr_failures[:5]
     run.coverage["probes"] = {k: {kk: vv for kk, vv in v.items() if kk not in ("spec", "tb")} for k, v in probe_res.items()}
     if (not lean.ok or corr_failures) and not run.violations:
